@@ -369,7 +369,14 @@ func (h *hydra) GetLocker() lock.Lock {
 type SwampWaiter struct {
 	cond  *sync.Cond
 	ready bool
-	count int32 // store the number of waiting goroutines
+	// count is the number of goroutines that currently own a reference to this waiter: the one
+	// inside the summoning section plus all that wait for it. It is only changed under cond.L
+	// (atomically, so that it can be read without the lock).
+	count int32
+	// dead is set (under cond.L) by the last owner when it removes the waiter from the
+	// summoningSwamps map. A goroutine that loaded the waiter just before that must not use
+	// it anymore, because a newer waiter for the same swamp may already be in the map.
+	dead bool
 }
 
 func newSwampWaiter() *SwampWaiter {
@@ -392,20 +399,46 @@ func (h *hydra) SummonSwamp(ctx context.Context, islandID uint64, swampName name
 	// if the ok is true then the swamp is already summoning, so we need to wait for the other process to finish the summoning process
 	// if the ok is false then the swamp is not summoning, so we can start the summoning process and store the swamp in the map
 	// immediately
-	result, _ := h.summoningSwamps.LoadOrStore(swampName.Get(), newSwampWaiter())
-	waiter, _ := result.(*SwampWaiter)
+	// Every goroutine that takes the waiter registers itself in waiter.count under the waiter's lock
+	// and only the last one to leave removes the waiter from the map (and marks it dead, also under
+	// the lock). This way the waiter can never be dropped from the map while a goroutine still waits
+	// on it or is about to own it, so two goroutines can never summon the same swamp through two
+	// different waiters at the same time.
+	var waiter *SwampWaiter
+	for {
+		result, _ := h.summoningSwamps.LoadOrStore(swampName.Get(), newSwampWaiter())
+		waiter, _ = result.(*SwampWaiter)
 
-	// lezárjuk a következő kódrészt, így csak egyetlen rutin futhatja egyszerre egy domain néven belül
-	waiter.cond.L.Lock()
+		// lezárjuk a következő kódrészt, így csak egyetlen rutin futhatja egyszerre egy domain néven belül
+		waiter.cond.L.Lock()
+		if !waiter.dead {
+			break
+		}
+		// the last owner removed this waiter from the map after we loaded it: take the current one
+		waiter.cond.L.Unlock()
+	}
+	atomic.AddInt32(&waiter.count, 1)
+
+	// leaveWaiter must be called with the waiter's lock held, exactly once by every goroutine that
+	// registered itself above.
+	leaveWaiter := func() {
+		// ha nincs több várakozó goroutin, akkor töröljük a várakozó mapből a swampot
+		remaining := atomic.AddInt32(&waiter.count, -1)
+		if remaining == 0 {
+			waiter.dead = true
+			h.summoningSwamps.Delete(swampName.Get())
+		}
+	}
+
 	for waiter.ready {
 		select {
 		case <-ctx.Done():
 			// Ha a kontextus megszakad, jelezzük a többi várakozó goroutinnak, hogy ne várjanak tovább
+			leaveWaiter()
 			waiter.cond.Broadcast()
 			waiter.cond.L.Unlock()
 			return nil, ctx.Err() // Visszatérünk a kontextus hibaüzenetével
 		default:
-			atomic.AddInt32(&waiter.count, 1)
 			waiter.cond.Wait()
 		}
 	}
@@ -416,14 +449,10 @@ func (h *hydra) SummonSwamp(ctx context.Context, islandID uint64, swampName name
 		// Swamp véglegesítése után
 		waiter.cond.L.Lock()
 		waiter.ready = false
+		// csökkentjük a várakozó goroutinok számát
+		leaveWaiter()
 		waiter.cond.Broadcast() // Értesítjük a többi várakozót
 		waiter.cond.L.Unlock()
-		// csökkentjük a várakozó goroutinok számát
-		atomic.AddInt32(&waiter.count, -1)
-		// ha nincs több várakozó goroutin, akkor töröljük a várakozó mapből a swampot
-		if atomic.LoadInt32(&waiter.count) == 0 {
-			h.summoningSwamps.Delete(swampName.Get())
-		}
 	}()
 
 	var swampObject swamp.Swamp
